@@ -186,6 +186,8 @@ ORACLE_TEXT = {
     "opt": "result with optimizer sets {default, all, each alone, reordered} == result with no optimizers",
     "procs": "result at GOMAXPROCS 1..16, with unrelated series added, under injected yields and on repetition == base result",
     "perm": "result under random permutations of the storage's series order == base result",
+    "hints": "recorded storage selects (matchers, hinted range, step, range, func, grouping, by) == reference engine's; result unchanged when the storage omits samples outside the hinted range, for optimizer sets none/default/all",
+    "dist": "distributed engine over a random disjoint partition (1..4 engines, possibly empty) == central engine over the union",
     "wf": "successful result is a well-formed PromQL value (sorted, distinct label sets, non-empty series, increasing on-grid timestamps, no stale marker)",
 }
 
@@ -310,6 +312,39 @@ def check_C03(tier, seed, replay=None):
     return ref_family_check("C03", tier, seed, [("range", 3000)], [("range", 60000)], corr=corr_range)
 
 
+def _corr_generic(cmd, prop, model_text, per_quick, per_thorough, shards_quick=8, shards_thorough=32):
+    def corr(hbin, wd, tier, seed):
+        shards, per = (shards_quick, per_quick) if tier == "quick" else (shards_thorough, per_thorough)
+
+        def gen(i):
+            out = os.path.join(wd, "cases_%s_%d.v" % (prop, i))
+            p = run([hbin, cmd, "--seed", str(seed), "--from", str(i * per), "--to", str((i + 1) * per), "--out", out], timeout=900)
+            return out, json.loads(p.stdout.strip().splitlines()[-1])
+
+        from concurrent.futures import ThreadPoolExecutor
+        with ThreadPoolExecutor(max_workers=16) as ex:
+            outs = list(ex.map(gen, range(shards)))
+        tot = {}
+        for _, st in outs:
+            for k, v in st.items():
+                tot[k] = tot.get(k, 0) + v
+        res = eval_case_files([o for o, _ in outs])
+        bad = []
+        for r in res:
+            if not r["ok"]:
+                bad.append({"file": r["file"], "error": r["log"][-800:]})
+            else:
+                bad += [{"file": r["file"], "case": i} for i in r["bad"]]
+        return dict(tot, model=model_text, disagreements=len(bad)), bad
+    return corr
+
+
+def check_C16(tier, seed, replay=None):
+    corr = _corr_generic("hintcases", "C16", "Hints.eng_selects vs the selects recorded by the instrumented storage (no optimizers)", 150, 1500)
+    return ref_family_check("C16", tier, seed, [("hints", "", 1500), ("hints", "range", 500), ("hints", "func", 500)],
+                            [("hints", "", 30000), ("hints", "range", 10000), ("hints", "func", 10000), ("hints", "deep", 10000)], corr=corr)
+
+
 def check_C07(tier, seed, replay=None):
     return ref_family_check("C07", tier, seed,
                             [("instants", "nostartend", 1500), ("instants", "range", 400)],
@@ -328,4 +363,4 @@ def check_C19(tier, seed, replay=None):
                             [("wf", "", 60000), ("wf", "bin", 30000), ("wf", "func", 20000), ("wf", "deep", 20000)])
 
 
-CHECKS = {"C08": check_C08, "C02": check_C02, "C03": check_C03, "C07": check_C07, "C11": check_C11, "C19": check_C19}
+CHECKS = {"C08": check_C08, "C02": check_C02, "C03": check_C03, "C07": check_C07, "C11": check_C11, "C19": check_C19, "C16": check_C16}
